@@ -82,11 +82,33 @@ DESC = {
  'C18-4': '_send_vector returns replaced errors before the warming-up scan (a -28 batch is not retried)',
  'C19-3': 'peer status helper tests last_good before bad (a bad peer that was recently good is advertised)',
  'C19-4': 'Peer.is_public: any host ending in .onion is public (is_valid not consulted)',
+ 'C01-5': 'LogicalFile.write slices by file_size from the start offset (wrong when a write starts mid-file and crosses a file boundary)',
+ 'C02-5': 'spend_utxo (DB path) takes the first candidate with a live u row, no full-hash check (history credited to the wrong script hash)',
+ 'C03-5': 'iter_txs_reversed visits the read chunks first to last (blocks larger than one chunk are undone in the wrong order)',
+ 'C04-5': 'History.flush skips its batch (and state record) when nothing is unflushed (flush counts drift; a later crash is not cleaned up)',
+ 'C05-5': 'touched hashXs collected only while caught up (back-outs after a restart roll back no history)',
+ 'C06-5': 'prefetch task swallows CancelledError (a shutdown request that lands on an in-flight block download is lost)',
+ 'C07-5': 'on_caught_up calls Notifications.on_block only when the touched set is non-empty (a block touching nothing is never reported)',
+ 'C08-5': 'mempool remembers dropped txs as unresolvable and never fetches them again',
+ 'C09-5': 'mempool removal of vanished txs batched with await sleep(0) between batches (index and tx set inconsistent at the new suspension point)',
+ 'C10-5': 'get_tsc_merkle awaits the header / daemon before _merkle_branch (a merkle cache of an orphaned block installed after a reorg)',
+ 'C11-5': 'branch_and_root accepts a pass over a truncation if the cache is long enough again at the end',
+ 'C12-5': 'branch_and_root takes the level before reading the leaf hashes (holds the live level list across an await)',
+ 'C13-5': 'iter_txs / _chunk_offsets stop parsing when fewer than 60 bytes remain (a block ending in a shorter tx is reported truncated)',
+ 'C14-5': 'LevelDB.write_batch without transaction=True (an interrupt while a compaction batch is assembled commits its deletes only)',
+ 'C15-5': 'undo rows written with direct puts after the UTXO batch instead of inside it (crash in between)',
+ 'C16-5': 'server_version coerces client_name to str only at the assignment (DROP_CLIENT regex on a non-string raises; sv_seen consumed)',
+ 'C17-5': 'DB.limited_history retries by re-entering itself without limit= (the retry path returns at most 1000 entries)',
+ 'C18-5': 'Daemon session created with raise_for_status=True (genuine RPC errors on HTTP 500/404 are retried for ever)',
+ 'C19-5': '_import_peers extends self.myselves in place (hard-coded peers become own identities: advertised unfiltered)',
+ 'C20-5': '_maybe_notify forgets pending sets only after the awaited notify (reports for a lower height arriving meanwhile are deleted)',
 }
 print('| change | what it does | checks run (quick tier) and verdict |')
 print('|---|---|---|')
 for d in sorted(glob.glob(os.path.join(os.path.dirname(os.path.abspath(__file__)), 'seeded', 'C[0-9][0-9]-[0-9]'))):
     name = os.path.basename(d)
+    if not os.path.exists(os.path.join(d, 'meta.json')):
+        continue
     m = json.load(open(os.path.join(d, 'meta.json')))
     ran = []
     for r in m.get('ran', []):
